@@ -264,6 +264,26 @@ def r17_c(ctx):
         if isinstance(owner, (ast.ListComp, ast.GeneratorExp, ast.DictComp)):
             p = getattr(owner, '_parent', None)
             ok = isinstance(p, ast.Call) and norm(p.func) in ('set', 'frozenset', 'any', 'all', 'sum', 'len', 'sorted', 'max', 'min')
+            if not ok and isinstance(owner, ast.GeneratorExp) and isinstance(p, ast.Call) and norm(p.func) == 'next' \
+                    and len(owner.generators) == 1 and isinstance(owner.generators[0].target, ast.Name):
+                # next(<first element whose condition holds>): a first-match search -- fine when the condition is a
+                # prefix comparison of len(element) characters and no element is a proper prefix of another
+                tv = owner.generators[0].target.id
+                pm = any(isinstance(x, ast.Compare) and isinstance(x.ops[0], (ast.Eq, ast.NotEq)) and (
+                    (any(isinstance(y, ast.Name) and y.id == tv for y in ast.walk(x.comparators[0])) and 'len(%s)' % tv in norm(x.left))
+                    or (any(isinstance(y, ast.Name) and y.id == tv for y in ast.walk(x.left)) and 'len(%s)' % tv in norm(x.comparators[0])))
+                    for c_ in owner.generators[0].ifs for x in ast.walk(c_)) or any(
+                    isinstance(x, ast.Call) and isinstance(x.func, ast.Attribute) and x.func.attr == 'startswith' and len(x.args) == 1
+                    and isinstance(x.args[0], ast.Name) and x.args[0].id == tv for c_ in owner.generators[0].ifs for x in ast.walk(c_))
+                rel = _prefix_related(v) if pm else None
+                ok2 = pm and not rel
+                rr.ob(ok2, {'module': m.name, 'function': fdname, 'iteration': norm(it)[:60], 'use': 'first match (next)',
+                            'competing_elements': [list(x) for x in (rel or [])[:4]]})
+                if not ok2:
+                    rr.fail(Finding('R17.c', m.name, fdname, owner, 'a first-match search (next over a generator) iterates a '
+                                    'set (%d elements) whose elements can compete: which one matches first depends on the '
+                                    'hash seed' % len(v), line=owner.lineno))
+                continue
             rr.ob(ok, {'module': m.name, 'iteration': norm(it)[:60], 'use': norm(p.func) if ok else 'ordered result'})
             if not ok:
                 rr.fail(Finding('R17.c', m.name, fdname, owner, 'a sequence is built by iterating a set: its order '
@@ -333,26 +353,121 @@ def r17_d(ctx):
         rets = [n for n in ast.walk(fd.node) if isinstance(n, ast.Return) and n.value is not None]
         if not rets:
             raise AnalysisError('%s returns nothing' % fq)
+        from .model import resolve_locals
         for r in rets:
-            shared = [x.id for x in ast.walk(r.value) if isinstance(x, ast.Name) and x.id in glob and x.id not in loc
+            rv = resolve_locals(fd.node, r.value)
+            shared = [x.id for x in ast.walk(rv) if isinstance(x, ast.Name) and x.id in glob and x.id not in loc
                       and not (repo.resolve(fd.module, x.id) or ('',))[0] in ('func', 'class')]
-            ctor = any(isinstance(x, ast.Call) for x in ast.walk(r.value))
+            ctor = any(isinstance(x, ast.Call) for x in ast.walk(rv))
             ok = not shared and ctor
             rr.ob(ok, {'function': fq, 'returns': norm(r.value)[:70]})
             if not ok:
                 rr.fail(Finding('R17.d', fd.module.name, fd.qual, r, 'the entry point returns %s: a module-level object is '
                                 'shared between parses' % (shared or 'no freshly constructed object'), line=r.lineno))
-    # non-string input is flattened to one string before anything else sees it
+    # non-string input is flattened to one string before anything else sees it: what reaches the categoriser is the
+    # input itself only under isinstance(<input>, str), otherwise a ''.join(...) of it
     fd = repo.need_func('tex.read')
     src_p = fd.params()[0]
-    flat = [n for n in ast.walk(fd.node) if isinstance(n, ast.If) and 'isinstance(%s, str)' % src_p in norm(n.test)]
-    ok = bool(flat) and any(isinstance(s, ast.Assign) and norm(s.targets[0]) == src_p and '.join(' in norm(s.value) for s in flat[0].body)
-    rr.ob(ok, {'flattening': norm(flat[0].body[0])[:70] if flat else None})
-    if not ok:
-        rr.fail(Finding('R17.d', 'tex', fd.qual, flat[0] if flat else 'no flattening of non-string input',
-                        'non-string input (chunks, lines, files) is not joined into one string before categorising: the '
-                        'result would depend on the chunking', line=fd.node.lineno))
+
+    def joins(e):
+        return isinstance(e, ast.Call) and isinstance(e.func, ast.Attribute) and e.func.attr == 'join' \
+            and isinstance(e.func.value, ast.Constant) and e.func.value.value == ''
+
+    def is_str_test(t, p_):
+        return norm(t) == 'isinstance(%s, str)' % p_
+
+    def flat_expr(e, fnode, p_, depth=0):
+        """e evaluates to one string whenever p_ is the raw input"""
+        if joins(e):
+            return True
+        if isinstance(e, ast.IfExp):
+            if is_str_test(e.test, p_):
+                return norm(e.body) == p_ and flat_expr(e.orelse, fnode, p_, depth)
+            if isinstance(e.test, ast.UnaryOp) and isinstance(e.test.op, ast.Not) and is_str_test(e.test.operand, p_):
+                return norm(e.orelse) == p_ and flat_expr(e.body, fnode, p_, depth)
+            return False
+        if isinstance(e, ast.Name) and e.id == p_:
+            # rebound under `if not isinstance(p, str): p = ''.join(...)` before use
+            for n in ast.walk(fnode):
+                if isinstance(n, ast.If) and isinstance(n.test, ast.UnaryOp) and isinstance(n.test.op, ast.Not) \
+                        and is_str_test(n.test.operand, p_) and any(
+                            isinstance(s_, ast.Assign) and norm(s_.targets[0]) == p_ and joins(s_.value) for s_ in n.body):
+                    return True
+            return False
+        if isinstance(e, ast.Call) and isinstance(e.func, ast.Name) and len(e.args) == 1 and not e.keywords \
+                and isinstance(e.args[0], ast.Name) and e.args[0].id == p_ and depth < 2:
+            r_ = repo.resolve(fd.module, e.func.id)
+            if r_ and r_[0] == 'func' and len(r_[1].params()) == 1:
+                h = r_[1]
+                hp = h.params()[0]
+                # every return of the helper: the parameter under isinstance(p, str), or a join
+                okh = True
+                n_ret = 0
+
+                def walk(stmts, is_str):
+                    nonlocal okh, n_ret
+                    for s_ in stmts:
+                        if isinstance(s_, ast.If):
+                            if is_str_test(s_.test, hp):
+                                walk(s_.body, True)
+                                walk(s_.orelse, False)
+                                if s_.body and isinstance(s_.body[-1], ast.Return):
+                                    is_str = False if is_str is None else is_str
+                            elif isinstance(s_.test, ast.UnaryOp) and isinstance(s_.test.op, ast.Not) and is_str_test(s_.test.operand, hp):
+                                walk(s_.body, False)
+                                walk(s_.orelse, True)
+                                if s_.body and isinstance(s_.body[-1], ast.Return):
+                                    is_str = True
+                            else:
+                                walk(s_.body, is_str)
+                                walk(s_.orelse, is_str)
+                        elif isinstance(s_, ast.Return):
+                            n_ret += 1
+                            v_ = s_.value
+                            if v_ is None:
+                                okh = False
+                            elif isinstance(v_, ast.Name) and v_.id == hp:
+                                if is_str is not True:
+                                    okh = False
+                            elif not flat_expr(v_, h.node, hp, depth + 1):
+                                okh = False
+                            return
+                walk(strip_doc_(h.node.body), None)
+                return okh and n_ret > 0
+        return False
+    # ... and the public entry point hands its source to the reader as it received it: anything done to the
+    # pieces of a chunked input before they are joined makes chunk boundaries visible
+    ep = repo.need_func('__init__.TexSoup')
+    ep_p = ep.params()[0]
+    rcalls = [n for n in ast.walk(ep.node) if isinstance(n, ast.Call) and isinstance(n.func, ast.Name) and n.func.id == 'read']
+    if not rcalls:
+        raise AnalysisError('TexSoup(): the call of read vanished')
+    rebinds = [n for n in ast.walk(ep.node) if isinstance(n, ast.Name) and n.id == ep_p and isinstance(n.ctx, ast.Store)]
+    for c in rcalls:
+        a0 = c.args[0] if c.args else None
+        ok = isinstance(a0, ast.Name) and a0.id == ep_p and not rebinds
+        rr.ob(ok, {'entry_point_forwards_source_unchanged': norm(a0) if a0 is not None else None})
+        if not ok:
+            site = rebinds[0]._parent if rebinds and hasattr(rebinds[0], '_parent') else c
+            rr.fail(Finding('R17.d', '__init__', ep.qual, site, 'TexSoup() rewrites its source (%s) before the reader has '
+                            'joined a chunked input into one string: the rewriting sees each chunk separately, so the result '
+                            'depends on where the input was split' % norm(site)[:60], line=getattr(site, 'lineno', 0)))
+    cat_calls = [n for n in ast.walk(fd.node) if isinstance(n, ast.Call) and isinstance(n.func, ast.Name) and n.func.id == 'categorize']
+    if not cat_calls:
+        raise AnalysisError('tex.read: the call of categorize vanished')
+    for c in cat_calls:
+        arg = resolve_locals(fd.node, c.args[0]) if c.args else None
+        ok = arg is not None and flat_expr(arg, fd.node, src_p)
+        rr.ob(ok, {'categorize_argument': norm(arg)[:70] if arg is not None else None})
+        if not ok:
+            rr.fail(Finding('R17.d', 'tex', fd.qual, c if arg is not None else 'no flattening of non-string input',
+                            'non-string input (chunks, lines, files) is not joined into one string before categorising: the '
+                            'result would depend on the chunking', line=fd.node.lineno))
     return rr
+
+
+def strip_doc_(body):
+    return [s for s in body if not (isinstance(s, ast.Expr) and isinstance(s.value, ast.Constant) and isinstance(s.value.value, str))]
 
 
 def r17_f(ctx):
